@@ -157,6 +157,30 @@ def generate(rng, tier):
     }
 
 
+def prepare(tier):
+    core.build_driver()
+
+
+def api_text(sc, v, case, name, eff):
+    """the probe formatted through the library API with the effective options set via Config::override_value"""
+    import json as _json
+    order = sorted(eff, key=lambda k: (0 if k == "max_width" else 1 if k == "use_small_heuristics" else 2, k))
+    steps = [{"file": os.path.join(sc.root, "zref", name), "discover": False, "config_path": None,
+              "overrides": [[k, gen_config.cli_value(eff[k])] for k in order]}]
+    with open(os.path.join(sc.top, "script.json"), "w") as f:
+        _json.dump({"emit": "stdout", "steps": steps}, f)
+    res = core.run_inv(sc, {"tool": core.DRIVER, "argv": [os.path.join(sc.top, "script.json")], "hashseed": case["hashseed"],
+                            "env": {"HOME": "$ROOT/zhome"}})
+    v.account(res, nontrivial=False)
+    try:
+        doc = _json.loads(core.text_of(res.stdout).rstrip("\n").split("\n")[-1])
+    except ValueError:
+        return None
+    if doc["steps"][0].get("error"):
+        return None
+    return parse_stdout_sections(doc["all"].encode("utf-8"), sc.root, sc.root, {"zref/" + name}).get("zref/" + name)
+
+
 def cli_args(cli, root_prefix="$ROOT/"):
     a = []
     if cli["config"]:
@@ -296,6 +320,13 @@ def execute(case):
                 if rc.exit == 0 and csec != rsec:
                     cls = "C14:file-vs-cli-same-values"
                     v.add(cls, "options %s give different bytes from a file and from --config" % eff, probe=p)
+            # same values through the library API (Config::override_value)
+            if eff and os.path.exists(core.DRIVER) and case["hashseed"] % 3 == 0:
+                asec = api_text(sc, v, case, name, eff)
+                if asec is not None:
+                    v.probe("api-lane")
+                    if asec != rsec:
+                        v.add("C14:file-vs-api-same-values", "options %s give different bytes from a file and from the API" % eff, probe=p)
             # ---- print-config dumps
             dargv = ["--print-config", "current", parg(p)] + cli_args(cli)
             rd = core.run_inv(sc, {"argv": dargv, "cwd": case["cwd"], "env": env, "hashseed": case["hashseed"]})
